@@ -335,6 +335,26 @@ def main():
                 parts = float(CH.compute_length(left)) + float(CH.compute_length(right))
                 if abs(parts - got) > 2.0 ** -23 * got:
                     res.failure("length-not-additive", "length %r vs sum of halves %r" % (got, parts), rc)
+                # lengths of DERIVED objects of a curve whose length has already been read: specialisations to unit-width and
+                # other intervals (inside, outside, reversed), copies and elevations; each against the length computed from
+                # the derived object's own control net and against chord <= length <= control polygon
+                if nn <= 6:
+                    crv = bezier.Curve(arr, nn - 1)
+                    _ = crv.length
+                    for a_, b_ in ((-0.25, 0.75), (0.5, 1.5), (1.0, 0.0), (0.0, 1.0), (0.25, 0.75), (0.25, 1.25)):
+                        piece = crv.specialize(a_, b_)
+                        for lab, obj in (("specialize(%s, %s)" % (a_, b_), piece), ("specialize(%s, %s).elevate()" % (a_, b_), piece.elevate()),
+                                         ("specialize(%s, %s).copy()" % (a_, b_), piece.copy())):
+                            pn = np.asfortranarray(np.asarray(obj.nodes))
+                            own = float(CH.compute_length(pn))
+                            got_d = float(obj.length)
+                            pchord = float(np.linalg.norm(pn[:, -1] - pn[:, 0]))
+                            ppoly = float(np.sum(np.linalg.norm(pn[:, 1:] - pn[:, :-1], axis=0)))
+                            if abs(got_d - own) > 2.0 ** -22 * max(own, 2.0 ** -20) or got_d < pchord * (1 - 2.0 ** -22) or got_d > ppoly * (1 + 2.0 ** -22):
+                                res.failure("length-wrong:derived-object", "Curve.length of %s of a degree-%d curve whose length had been read: %r; "
+                                            "computed from its own control net %r, chord %r, control polygon %r" %
+                                            (lab, nn - 1, got_d, own, pchord, ppoly), rc)
+                                break
         except Exception as exc:  # noqa
             res.failure("raised:%s:%s" % (kind, type(exc).__name__), "%s raised %r" % (kind, exc), rc)
     res.emit()
